@@ -128,6 +128,29 @@ class PCTChooser(Chooser):
         return best
 
 
+IO_COMPLETIONS = ('b.readall', 'r.read', 'w.write')
+
+
+class IoSlowChooser(Chooser):
+    """Storage is slow relative to computation: a thread whose pending operation is an I/O
+    completion runs only when nothing else can (all requests get issued before any completes, queues
+    fill up in front of the writer); completions then happen in seeded random order.  With
+    probability q a completion is let through early."""
+
+    def __init__(self, rng, q=0.1):
+        self.rng = rng
+        self.q = q
+        self.name = 'ioslow'
+
+    def choose(self, sched, runnable, cur):
+        if len(runnable) == 1:
+            return runnable[0]
+        fast = [t for t in runnable if t.pending not in IO_COMPLETIONS]
+        if fast and len(fast) < len(runnable) and self.rng.random() >= self.q:
+            return fast[self.rng.randrange(len(fast))]
+        return runnable[self.rng.randrange(len(runnable))]
+
+
 class ReplayChooser(Chooser):
     """Consumes a recorded list of thread ids (None = default choice).  When the recorded id is
     not runnable (because the history was minimised) falls back to the default choice."""
@@ -161,10 +184,12 @@ def make_chooser(policy, rng, est_steps=60):
         return StickyChooser(rng, float(policy[6:]))
     if policy.startswith('pct'):
         return PCTChooser(rng, int(policy[3:]), est_steps)
+    if policy == 'ioslow':
+        return IoSlowChooser(rng)
     raise ValueError(policy)
 
 
-POLICIES = ['random', 'random', 'sticky0.5', 'sticky0.9', 'pct1', 'pct2', 'pct3']
+POLICIES = ['random', 'random', 'sticky0.5', 'sticky0.9', 'pct1', 'pct2', 'pct3', 'ioslow', 'ioslow']
 
 
 # --------------------------------------------------------------------------------------------
